@@ -528,10 +528,39 @@ func (s *MemoryStore) DeletePARSession(ctx context.Context, requestURI string) (
 func (s *MemoryStore) RotateRefreshToken(ctx context.Context, requestID string, refreshTokenSignature string) (err error) {
 	// Graceful token rotation can be implemented here but it's beyond the scope of this example. Check
 	// the Ory Hydra implementation for reference.
-	if err := s.RevokeRefreshToken(ctx, requestID); err != nil {
+
+	if err := s.rotateRefreshToken(requestID, refreshTokenSignature); err != nil {
 		return err
 	}
 	return s.RevokeAccessToken(ctx, requestID)
+}
+
+// rotateRefreshToken checks that the presented refresh token is still active and revokes the refresh token of
+// the request in one critical section: two requests that were both validated while the token was active must
+// not both exchange it.
+func (s *MemoryStore) rotateRefreshToken(requestID string, refreshTokenSignature string) error {
+	s.refreshTokenRequestIDsMutex.Lock()
+	defer s.refreshTokenRequestIDsMutex.Unlock()
+	s.refreshTokensMutex.Lock()
+	defer s.refreshTokensMutex.Unlock()
+
+	presented, ok := s.RefreshTokens[refreshTokenSignature]
+	if !ok {
+		return fosite.ErrNotFound
+	}
+	if !presented.active {
+		return fosite.ErrInactiveToken
+	}
+
+	if signature, exists := s.RefreshTokenRequestIDs[requestID]; exists {
+		rel, ok := s.RefreshTokens[signature]
+		if !ok {
+			return fosite.ErrNotFound
+		}
+		rel.active = false
+		s.RefreshTokens[signature] = rel
+	}
+	return nil
 }
 
 // CreateDeviceAuthSession stores the device auth session
